@@ -154,16 +154,26 @@ impl<'l> CelCompiler<'l> {
             let after_true_clause = self.new_label();
             let end_label = self.new_label();
 
+            // The condition is reduced to its truthiness (TEST), exactly as the
+            // folded form above does.  TEST leaves a failed condition as it is;
+            // a failed condition must fail the whole expression instead of
+            // selecting the else branch, so it is kept on the stack and the
+            // else branch is skipped (NOT maps false -> true, error -> error).
             CompiledProg {
                 inner: NodeValue::Bytecode(
                     expr_node
                         .into_bytecode()
                         .into_iter()
                         .chain(
-                            [PreResolvedCodePoint::JmpCond {
-                                when: JmpWhen::False,
-                                label: after_true_clause,
-                            }]
+                            [
+                                ByteCode::Test.into(),
+                                ByteCode::Dup.into(),
+                                PreResolvedCodePoint::JmpCond {
+                                    when: JmpWhen::False,
+                                    label: after_true_clause,
+                                },
+                                ByteCode::Pop.into(),
+                            ]
                             .into_iter(),
                         )
                         .chain(true_clause_bytecode.into_iter())
@@ -171,6 +181,13 @@ impl<'l> CelCompiler<'l> {
                             [
                                 PreResolvedCodePoint::Jmp { label: end_label },
                                 PreResolvedCodePoint::Label(after_true_clause),
+                                ByteCode::Dup.into(),
+                                ByteCode::Not.into(),
+                                PreResolvedCodePoint::JmpCond {
+                                    when: JmpWhen::False,
+                                    label: end_label,
+                                },
+                                ByteCode::Pop.into(),
                             ]
                             .into_iter(),
                         )
